@@ -36,6 +36,14 @@ import (
 // to be relayed to the destination address in its socks5 UDP header.
 type udpDestinationFilter func(dst model.AddrSpec) bool
 
+// udpLoopError is the only type stored in the atomic.Value that collects
+// the errors of the UDP relay goroutines. atomic.Value panics if two Store()
+// calls use different concrete types, and the goroutines can fail with
+// errors of different types, e.g. *net.OpError and io.EOF.
+type udpLoopError struct {
+	err error
+}
+
 // RunUDPAssociateLoop exchanges socks5 UDP packets between a socks5 proxy client and a mieru proxy server,
 // the proxy server is connected via the PacketOverStreamTunnel.
 func RunUDPAssociateLoop(udpConn *net.UDPConn, conn *apicommon.PacketOverStreamTunnel, resolver apicommon.DNSResolver) error {
@@ -63,13 +71,13 @@ func runUDPAssociateLoop(udpConn *net.UDPConn, conn *apicommon.PacketOverStreamT
 		for {
 			n, err = conn.Read(buf)
 			if err != nil {
-				udpErr.Store(err)
+				udpErr.Store(udpLoopError{err})
 				return
 			}
 
 			datagram, err := parseSocks5UDPDatagram(buf[:n])
 			if err != nil {
-				udpErr.Store(err)
+				udpErr.Store(udpLoopError{err})
 				UDPAssociateErrors.Add(1)
 				return
 			}
@@ -112,7 +120,7 @@ func runUDPAssociateLoop(udpConn *net.UDPConn, conn *apicommon.PacketOverStreamT
 					log.Debugf("UDP associate %v Read() failed: %v", udpConn.LocalAddr(), err)
 				}
 				if udpErr.Load() == nil {
-					udpErr.Store(err)
+					udpErr.Store(udpLoopError{err})
 				}
 				return
 			}
@@ -128,7 +136,7 @@ func runUDPAssociateLoop(udpConn *net.UDPConn, conn *apicommon.PacketOverStreamT
 			if err != nil {
 				log.Debugf("UDP associate %v Write() to proxy client failed: %v", udpConn.LocalAddr(), err)
 				if udpErr.Load() == nil {
-					udpErr.Store(err)
+					udpErr.Store(udpLoopError{err})
 				}
 				return
 			}
@@ -138,7 +146,7 @@ func runUDPAssociateLoop(udpConn *net.UDPConn, conn *apicommon.PacketOverStreamT
 	}()
 
 	wg.Wait()
-	return udpErr.Load().(error)
+	return udpErr.Load().(udpLoopError).err
 }
 
 // RunUDPForwardingLoop exchanges socks5 UDP packets between a mieru proxy client and a socks5 proxy server,
@@ -156,7 +164,7 @@ func RunUDPForwardingLoop(udpConn *net.UDPConn, conn *apicommon.PacketOverStream
 		_, err := ctrlConn.Read(buf)
 		if err != nil {
 			if udpErr.Load() == nil {
-				udpErr.Store(err)
+				udpErr.Store(udpLoopError{err})
 			}
 		}
 		udpConn.Close()
@@ -172,7 +180,7 @@ func RunUDPForwardingLoop(udpConn *net.UDPConn, conn *apicommon.PacketOverStream
 			n, err := conn.Read(buf)
 			if err != nil {
 				if udpErr.Load() == nil {
-					udpErr.Store(err)
+					udpErr.Store(udpLoopError{err})
 				}
 				return
 			}
@@ -198,7 +206,7 @@ func RunUDPForwardingLoop(udpConn *net.UDPConn, conn *apicommon.PacketOverStream
 					log.Debugf("UDP forwarding %v ReadFromUDP() failed: %v", udpConn.LocalAddr(), err)
 				}
 				if udpErr.Load() == nil {
-					udpErr.Store(err)
+					udpErr.Store(udpLoopError{err})
 				}
 				return
 			}
@@ -206,7 +214,7 @@ func RunUDPForwardingLoop(udpConn *net.UDPConn, conn *apicommon.PacketOverStream
 			if err != nil {
 				log.Debugf("UDP forwarding %v Write() to client failed: %v", udpConn.LocalAddr(), err)
 				if udpErr.Load() == nil {
-					udpErr.Store(err)
+					udpErr.Store(udpLoopError{err})
 				}
 				return
 			}
@@ -218,7 +226,7 @@ func RunUDPForwardingLoop(udpConn *net.UDPConn, conn *apicommon.PacketOverStream
 	wg.Wait()
 	ctrlConn.Close()
 	if err := udpErr.Load(); err != nil {
-		return err.(error)
+		return err.(udpLoopError).err
 	}
 	return nil
 }
